@@ -220,10 +220,16 @@ def run_impl(logL, case, reads=(), persist=False):
         state = _NSIntegralState(
             max(1, int(arr[0])), track_gradients=False, expectation=exp
         )
+        base = max(1, int(arr[0]))
         for j, (v, n) in enumerate(zip(logL, arr)):
             if j in reads and j > 0:
                 state = touch(state)
-            state.increment(v, nlive=n)
+            if case.get("default_calls") and n == base:
+                # the count is left out where it equals the one the state
+                # was constructed with (what the sampler does)
+                state.increment(v)
+            else:
+                state.increment(v, nlive=n)
         one_logZ, one_w = compute_weights(
             np.array(logL), np.array(arr, dtype=float), expectation=exp
         )
@@ -438,9 +444,19 @@ def cases(draw, max_len, max_nlive, big=False):
     else:
         N = draw(st.integers(1, max_len if big else min(max_len, 400)))
         nlive = None
-        kind = draw(st.sampled_from(["int", "float", "decreasing"]))
+        kind = draw(st.sampled_from(["int", "float", "decreasing",
+                                     "excursions"]))
         nb = min(N, 400)
-        if kind == "int":
+        if kind == "excursions":
+            # the base count (given to the constructor, used by calls that
+            # leave `nlive` out) with a few calls at another count in between
+            base = draw(st.integers(1, 200))
+            blk = draw(st.lists(st.one_of(st.just(base), st.just(base),
+                                          st.integers(1, 400)),
+                                min_size=nb, max_size=nb))
+            blk[0] = base
+            arr = (blk * (N // nb + 1))[:N]
+        elif kind == "int":
             blk = draw(st.lists(st.integers(1, 10**4), min_size=nb,
                                 max_size=nb))
             arr = (blk * (N // nb + 1))[:N]
@@ -492,6 +508,7 @@ def cases(draw, max_len, max_nlive, big=False):
         "persist": bool(reads) and draw(st.booleans()),
         "nlive": nlive,
         "nlive_arr": arr,
+        "default_calls": arr is not None and draw(st.booleans()),
         "expectation": expectation,
         "logL": logL,
         "shift": shift,
